@@ -13,6 +13,8 @@ open PS
 
 structure Session where
   st : State := {}
+  /-- a state kept across `(reset)` by `(mark)`: the first script of a pair -/
+  saved : State := {}
 
 def parseConfig (l : List Sexp) : Config :=
   let b (k : String) := match Sexp.field1? k l with | some v => (v.asBool?).getD false | none => false
@@ -58,7 +60,18 @@ def handle (ss : Session) (line : String) : Session × List String :=
   | none => (ss, ["(bad-line)"])
   | some sx =>
     match sx with
-    | .list [.atom "reset"] => ({}, ["ok"])
+    | .list [.atom "reset"] => ({ saved := ss.saved }, ["ok"])
+    | .list [.atom "mark"] => ({ ss with saved := ss.st }, ["ok"])
+    | .list [.atom "drop-task-theorem", n] =>
+        -- marked state = the full problem, current state = the script without optional task n: every hypothesis of
+        -- `C06_deletion_sound` (PS/Theorems/Renumber.lean)?
+        (ss, ["(n 1)", match n.asStr? with
+          | some nm => if ss.saved.dropTaskTheoremB ss.st nm then "true" else "false"
+          | none => "false"])
+    | .list [.atom "tasks-order-theorem"] =>
+        -- do the marked state and the current one meet every hypothesis of `C14_tasks_order_verdict`
+        -- (`tasksOrderTheoremB_sound`, PS/Theorems/Renumber.lean)?
+        (ss, ["(n 1)", if ss.saved.tasksOrderTheoremB ss.st then "true" else "false"])
     | .list [.atom "fragment"] =>
         -- is the state inside the fragment of the exactness theorems (`fragmentB_sound`, PS/Theorems/Exact.lean)?
         (ss, ["(n 1)", if ss.st.fragmentB then "true" else "false"])
